@@ -115,3 +115,16 @@ TRUSTED_STR = [
 TRUSTED_TOKEN = [
     'vx_clone_token(s): derived Clone on (String,String) and Vec of them is structural',
 ]
+
+
+# shell::has_operator_char, shared by the expansion units: extracted and verified in each of them against this spec
+HAS_OP = r"""
+pub open spec fn has_op(s: Seq<char>) -> bool { s.contains('|') || s.contains('&') || s.contains('<') || s.contains('>') }
+//@FN has_operator_char
+"""
+
+
+def has_operator_fn():
+    from vx.gen import Fn
+    return Fn('src/shell.rs', 'has_operator_char', ret='r', props=('C13',),
+              ensures=[('C13.has_operator_char.is_the_operator_test', 'r == has_op(text@)')])
